@@ -161,6 +161,8 @@ EDGES = [
 # ---------------------------------------------------------------------------------- loops
 # (function-key regex, shape, reason)
 LOOPS = [
+    (r"^mmap::xen::MmapXenForeign::mmap_ioctl$", "param_bounded_range",
+     "for i in 0..count: count is the page count of the region being constructed (management path), and the loop allocates one pfn per iteration"),
     (r"^<volatile_memory::VolatileSlice<'_, B> as bytes::Bytes<usize>>::(read_volatile_from|write_volatile_to)$", "eintr",
      "retry_eintr!: unbounded by design, repeats only while the stream reports ErrorKind::Interrupted"),
     (r"^io::(ReadVolatile::read_exact_volatile|WriteVolatile::write_all_volatile)$", "exact",
